@@ -136,19 +136,28 @@ pub fn option(d: &mut D, pos: Pos) -> (String, bool) {
                 "forward_attrs".to_string()
             } else {
                 let n = d.below(4);
-                let xs: Vec<String> = (0..n).map(|_| d.pick(ATTR_NAMES).to_string()).collect();
+                let xs: Vec<String> = (0..n).map(|_| if d.ratio(1, 5) { odd_list_item(d) } else { d.pick(ATTR_NAMES).to_string() }).collect();
                 format!("{}({})", name, xs.join(", "))
             }
         }
         "supports" => {
             let n = d.below(5);
-            let xs: Vec<String> = (0..n).map(|_| d.pick(SHAPE_WORDS).to_string()).collect();
+            let xs: Vec<String> = (0..n).map(|_| if d.ratio(1, 5) { odd_list_item(d) } else { d.pick(SHAPE_WORDS).to_string() }).collect();
             format!("supports({})", xs.join(", "))
         }
         "rename" => format!("rename = \"{}\"", d.pick(&["x", "other_name", "a::b", "kebab-name", "", "type"])),
         other => other.to_string(),
     };
     (text, true)
+}
+
+/// An item of a word-list option (`supports`, `attributes`, `forward_attrs`) that is not a plain word.
+fn odd_list_item(d: &mut D) -> String {
+    d.pick(&[
+        "a::b", "::named", "unit::extra", "named::", "\"lit\"", "1", "true", "x = 1", "named = \"x\"", "y(z)", "struct_named(inner)", "r#type", "r#named", "self", "crate::q",
+        "enum_any::x", "::darling", "'c'", "-1", "tuple()", "newtype = true",
+    ])
+    .to_string()
 }
 
 fn token_soup(d: &mut D, depth: usize) -> String {
@@ -403,9 +412,15 @@ const VALS: &[&str] = &[
 ];
 
 pub fn arb_value(d: &mut D) -> String {
-    match d.below(8) {
+    match d.below(9) {
         0 => d.pick(BIG).to_string(),
         1 => format!("\"{}\"", d.pick(BIG)),
+        // long strings of multi-byte characters at every alignment: whatever quotes part of a value in a
+        // message must cut it at a character boundary
+        8 => {
+            let unit = *d.pick(&["\u{e9}", "\u{2192}", "\u{1F600}", "a\u{e9}", "x y \u{2192} "]);
+            format!("\"{}{}\"", "a".repeat(d.below(5)), unit.repeat(d.range(1, 48)))
+        }
         _ => d.pick(VALS).to_string(),
     }
 }
